@@ -234,16 +234,8 @@ Definition frac_value (i : option str) (n d : str) : nval :=
     | Npos dp => (mk_frac (iv * Zpos dp + Z.of_N (val_N n)) dp, None)
     end.
 
-Definition sc_fraction (x : str) : option (nval * N * str) :=
-  let '(i, k0, x1) :=
-    match sc_digits x with
-    | Some (a, r) =>
-        match sc_hsp r with
-        | Some (w, r') => (Some a, len a + len w, r')
-        | None => (None, 0, x)
-        end
-    | None => (None, 0, x)
-    end in
+(** ... the part after the optional integer: [r"[0-9]+" hsp? "/" hsp? r"0*[1-9][0-9]*"] *)
+Definition sc_fraction_tail (i : option str) (k0 : N) (x1 : str) : option (nval * N * str) :=
   match sc_digits x1 with
   | None => None
   | Some (n, r2) =>
@@ -257,6 +249,16 @@ Definition sc_fraction (x : str) : option (nval * N * str) :=
           end
       | _ => None
       end
+  end.
+
+Definition sc_fraction (x : str) : option (nval * N * str) :=
+  match sc_digits x with
+  | Some (a, r) =>
+      match sc_hsp r with
+      | Some (w, r') => sc_fraction_tail (Some a) (len a + len w) r'
+      | None => sc_fraction_tail None 0 x
+      end
+  | None => sc_fraction_tail None 0 x
   end.
 
 (** [number <- fraction / decimal] *)
